@@ -30,6 +30,23 @@ def incdec (given : Option Name) (force : Bool) (chunks : List (List Nat)) : Str
   " ".intercalate r.2 ++ " | " ++ encCps fin.2 ++ " | " ++ showSt r.1 ++ " | " ++
     encCps (oneShot idInner given force chunks.flatten)
 
+def idInnerEnc : InnerEnc := ⟨fun _ b _ => b, fun _ a b _ => ⟨b, rfl⟩, fun _ => rfl⟩
+
+def showESt : ESt → String
+  | .waiting _ b => "W:" ++ encCps b
+  | .encoding e _ => "E:" ++ encCps e
+
+/-- `incenc given chunk…`: per-chunk outputs, final output, state before the final call, one-shot -/
+def incenc (given : Option Name) (chunks : List (List Nat)) : String :=
+  let rec go (s : ESt) (cs : List (List Nat)) (acc : List String) : ESt × List String :=
+    match cs with
+    | [] => (s, acc.reverse)
+    | c :: cs => let r := estep idInnerEnc s c false; go r.1 cs (encCps r.2 :: acc)
+  let r := go (.waiting given []) chunks []
+  let fin := estep idInnerEnc r.1 [] true
+  " ".intercalate r.2 ++ " | " ++ encCps fin.2 ++ " | " ++ showESt r.1 ++ " | " ++
+    encCps (encodeOneShot idInnerEnc given chunks.flatten)
+
 def handle (line : String) : String :=
   match words line with
   | ["detect", f, b] => match decCps b with
@@ -47,6 +64,11 @@ def handle (line : String) : String :=
       let given := if g == "none" then some none else (decCps g).map some
       match given, chunks.mapM decCps with
       | some given, some cs => incdec given (f == "1") cs
+      | _, _ => "bad-op"
+  | "incenc" :: g :: chunks =>
+      let given := if g == "none" then some none else (decCps g).map some
+      match given, chunks.mapM decCps with
+      | some given, some cs => incenc given cs
       | _, _ => "bad-op"
   | _ => "bad-op"
 
